@@ -23,6 +23,9 @@ CHECKS = {
  "C07": dict(cat="exploration", tech="deterministic simulation with a Byzantine prover over the hash operation registry; reference crates and an independent textbook Poseidon as oracles", ref="DESIGN.md 3.2, 4/C07",
    text="SHA-256, SHA-512, SHA3-256, Keccak-256, BLAKE2b-256/512 and fixed-length Poseidon circuits of the standard library hash messages of every length around the padding boundaries; the published input bytes and digest must equal the reference function (for Poseidon: the library's off-circuit hash and a textbook permutation written independently over the repository's constants), honestly and under Byzantine plans with faults sampled over the whole assignment trace and local repair of failing gate rows (incl. additive-selector constraints).",
    note="RIPEMD-160, variable-length SHA-256 / Poseidon and sponge absorb/squeeze sequences are not reachable through ZkStdLib and are not covered at this commit; fault sites are sampled."),
+ "C08": dict(cat="exploration", tech="deterministic simulation of the two parties of a public input (verifier-side formatter vs prover-side circuit) with instance-vector faults; read-back of the bound instance through the copy constraints", ref="DESIGN.md 4/C08",
+   text="For every Instantiable type reachable through the standard library (bit, byte, native, three emulated fields, Jubjub point and scalar, secp256k1 and BLS12-381 G1 points, BigUint of 1..2048 bits) and every exposure path (constrain_as_public_input, assign_as_public_input, committed instance column) the instance bound by the circuit must equal T::as_public_input(v), every single-position edit of it must be rejected, distinct values must have distinct encodings, and (sampled) the real key generator's nb_public_inputs must make the real verifier accept exactly the off-circuit encoding (not one element fewer or more).",
+   note="No schedule or storage dimension (stated in DESIGN.md); vk identity / accumulator / MSM encodings belong to C20's harness and IR value types to C18's; non-canonical exposure under a Byzantine prover is the known finding listed under C05."),
  "C09": dict(cat="exploration", tech="deterministic simulation: invariant monitor on a structure-recording Assignment back end (unknown vs concrete vs Byzantine witnesses), sampled real keygen/prove/verify", ref="DESIGN.md 4/C09",
    text="Each operation circuit of the registry is synthesised with unknown witnesses, with the concrete boundary-class witness and under Byzantine value edits; fixed cells, selectors, the copy-constraint partition, table fills, advice positions and region count must coincide, and for a sample the verifying key made without a witness must verify a real proof made from the witness.",
    note="Covers the operation circuits present in the registry (native family at this commit, extended as the registry grows); the proof pipeline circuits of C01 have witness-independent structure by construction of the generator."),
